@@ -270,7 +270,7 @@ def body_absolute(case, ctx):
         got = np.swapaxes(np.array(TX.matrix), -1, -2)
         want = Tc @ np.swapaxes(px, -1, -2)
         ctx.small("T@X is M_T M_X", mat_proj_dist(got, want), _tol(k))
-    if case["raw"] and kind in ("P.Point", "H.Point", "H.IdealPoint") and not case["T"]["comp"]:
+    if case["raw"] and kind in ("P.Point", "H.Point", "H.IdealPoint"):
         # a bare array of row vectors is accepted too and comes back as a generic object
         ctx.label("raw-array")
         G = T.apply(px.copy())
